@@ -139,6 +139,9 @@ class LoopSpec:
                 self._lem(it, fr, i)
                 self._lem(it, fr, i + 1)
                 st.assume(self.inv(it, fr, i))
+                ef = getattr(iterable, 'elem_facts', None)
+                if ef is not None:
+                    st.assume(ef(i))        # instance of the sequence's defining facts at position i
                 it.assign(s.target, iterable.elem(i), fr)
                 if self.on_bind:
                     self.on_bind(it, fr, i)
